@@ -630,12 +630,18 @@ def run_real(case, acc):
         ct.start()
         ct.join(12)
         acc.count2('oracle', 'real_tls_runs')
-        if ct.is_alive():
-            import sys
-            import traceback
+        import sys
+        import traceback
+
+        def where_is_it():
             fr = sys._current_frames().get(ct.ident)
             stack = traceback.extract_stack(fr) if fr is not None else []
-            where = [(os.path.basename(f.filename), f.name) for f in stack]
+            return [(os.path.basename(f.filename), f.name) for f in stack]
+        if ct.is_alive() and not any(fn == 'session.py' and name in ('_close_socket', 'close') for fn, name in where_is_it()):
+            # merely slow (a loaded machine): give it time before calling the run inconclusive
+            ct.join(40)
+        if ct.is_alive():
+            where = where_is_it()
             stuck_closing = any(fn == 'session.py' and name in ('_close_socket', 'close') for fn, name in where)
             done.set()
             ct.join(10)
